@@ -5,10 +5,13 @@ from .. import convlab as CL, front
 LEVEL = 'translation_validation'
 
 EXPR = ['f(X)', 'f(X, Y)', 'f(Y, X)', 'f(X, X)', 'f(X, f(Y, X))', 'g(f(X, Y))', 'f(X & Y)', '!f(X) | k', 'k', 'true', 'false', 'X & !Y', 'f(X) & g(X)', 'f(X, Y) & !f(Y, X)', 'X | (k & g(Y))',
-        'f(X) | !f(X)', 'f(!X)', 'h(X, Y, Z)', 'h(Z, X, X) ^ f(Y)', '(X => f(Y)) <=> k', 'f(g(X))', 'k & k2 | !X', 'f(X, Y) | f_11', 'g(X) & g_0 & !g_1']
+        'f(X) | !f(X)', 'f(!X)', 'h(X, Y, Z)', 'h(Z, X, X) ^ f(Y)', '(X => f(Y)) <=> k', 'f(g(X))', 'k & k2 | !X', 'f(X, Y) | f_11', 'g(X) & g_0 & !g_1',
+        # constants and zero-arity parameters as ARGUMENTS of uninterpreted functions, shared symbols at different nesting depths
+        'f(X, true)', 'f(false, X) | f(X, Y)', 'f(X, true) & !f(true, X)', 'f(X, k)', 'g(f(X, false), Y)', 'f(g(X)) & !g(X)', 'f(k) | k', 'h(X, true, Y) ^ h(false, X, Y)']
 
 def fixed_skeletons():
-    return ['a -> b\nb -| a\nc -? a\n', 'a -> b\nc -? b\n$b: f(a, c) & !k\n', 'a -> b\nb -> a\na -> a\n$b: f(a)\n$a: f(b) & a\n', 'a -?? a\nb -?? a\nc -?? a\n',
+    return ['a -?? x\nb -?? y\na -?? y\n$x: f(a, true)\n$y: f(a, b)\n', 'a -?? x\na -?? y\n$x: f(g(a))\n$y: g(a)\n', 'a -?? x\n$x: f(true, a) & !f(a, false)\n',
+            'a -> b\nb -| a\nc -? a\n', 'a -> b\nc -? b\n$b: f(a, c) & !k\n', 'a -> b\nb -> a\na -> a\n$b: f(a)\n$a: f(b) & a\n', 'a -?? a\nb -?? a\nc -?? a\n',
             'a -> b\n$a: k\n', 'a -> b\nb -> c\nc -| a\n$c: true\n', 'a -> b\n$b: !a\nb -> c\n$c: b | !b\n', 'a -> b\na -> c\n$b: f(a)\n$c: !f(a)\n',
             'a -> b\nc -> b\n$b: f(a, c) & !f(c, a)\n', '$a: k\nb -?? b\n$b: !f(b) | k\n', '$a: !k\n$b: k & k2\nc -> c\n$c: c | k2\n', '$a: true\nb -> b\n', 'a -> b\nc -> b\n$b: f(a, f(c, a))\n', 'a -> b\n$b: f(a) & f_1\n', 'a -? y\nx -> x\na -> x\ny -> x\n$x: a | y_0 | x\n']
 
@@ -62,10 +65,16 @@ def run(chk):
         targets = targets_of(info)
         tag = aeon.strip().replace('\n', ' ; ')
         # ---- layer 1: the functions from MIR
-        net, out = CL.run_mir(info)
+        from ..mirsym.interp import Unsupported
+        try: net, out = CL.run_mir(info)
+        except Unsupported as e:
+            # the symbolic layer has no rule for a construct of the working tree: the real binary (layer 2) still decides
+            net, out = None, ('unexplored', str(e))
+            if not any('C19/E-MIR layer' in u for u in chk.unexplored): chk.obligation(f'C19/E-MIR layer [unsupported: {str(e)[:160]}]', 'E-MIR/fork', 'inconclusive')
         chk.note_functions(CL.interp().executed); chk.models |= CL.interp().models_used
         mir_fails = []
-        if out[0] == 'panic': mir_fails = ['MIR execution panics: ' + out[1]]
+        if out[0] == 'unexplored': pass
+        elif out[0] == 'panic': mir_fails = ['MIR execution panics: ' + out[1]]
         else:
             fns = {v: CL.fn_to_ast(net.functions[v].v.fields[0]) for v in range(len(net.vars)) if net.functions[v].v.variant == 1}
             # no other targets are introduced; variables without regulators are untouched
@@ -96,5 +105,5 @@ def run(chk):
         elif mir_fails:
             chk.obligation(name + ' (E-MIR failure does not reproduce on the real binary: ' + mir_fails[0][:120] + ')', 'E-MIR/fork', 'inconclusive')
         else:
-            chk.obligation(name, 'E-MIR + run-then-prove', 'holds', 0.0, bool(targets), {'aeon': aeon, 'targets': [info['vars'][v] for v in targets], 'output': b[1].strip().split('\n')[1:4]})
+            chk.obligation(name, 'E-MIR + run-then-prove' if out[0] != 'unexplored' else 'run-then-prove', 'holds', 0.0, bool(targets), {'aeon': aeon, 'targets': [info['vars'][v] for v in targets], 'output': b[1].strip().split('\n')[1:4]})
     chk.extra['programs'] = nprog; chk.extra['disagreements_checked'] = ndis
